@@ -88,8 +88,10 @@ func ZZC10Range() {
 		}
 		want += "print:done\n"
 	}
+	// the body may assign to the loop variable: the next iteration still gets the next step of the range
+	assign := []string{"", "    i = i + 1000\n", "    i = a\n    i = i * 2\n"}[zzChoice("assign", 3)]
 	src := "a := 1\nb := 2\nc := 3\nfunc f:num n:num\n    print \"f\" n\n    return n\nend\n" +
-		"for i := range " + hdr + "\n    print \"i\" i\n    a = a + 100\n    b = b + 100\n    c = c + 100\nend\nprint \"done\"\n"
+		"for i := range " + hdr + "\n    print \"i\" i\n" + assign + "    a = a + 100\n    b = b + 100\n    c = c + 100\nend\nprint \"done\"\n"
 	p := &zzPlat{}
 	ev := NewEvaluator(p)
 	prog := zzMustParse(ev, src, "C10 range")
